@@ -322,8 +322,8 @@ fn shrink_unit(f: &Flat, kind: &str, drv: &mut Driver) -> Flat {
 
 /// text form of an encoded sheet (the replayable input): rows separated by `/`; a row is `<rep>:<cells>` with
 /// `<rep>` empty when the element has no number-rows-repeated attribute; cells separated by `;`; a cell is
-/// `<kind><payload>[~][*k]`: `_` blank, `c` covered blank, `f|p|u<f64 bits hex>`, `s|a|d|t<utf8 hex>`, `b0|b1`;
-/// `~` = has a display `text:p`; `*k` = number-columns-repeated="k".
+/// `<kind><payload>[=<formula hex>][~][*k]`: `_` blank, `c` covered blank, `f|p|u<f64 bits hex>`,
+/// `s|a|d|t<utf8 hex>`, `b0|b1`; `=…` = table:formula; `~` = has a display `text:p`; `*k` = number-columns-repeated="k".
 fn cell_text(c: &OdsCell) -> String {
     let mut s = match &c.val {
         OdsVal::Empty => if c.covered { "c".to_string() } else { "_".to_string() },
@@ -336,6 +336,9 @@ fn cell_text(c: &OdsCell) -> String {
         OdsVal::Date(t) => format!("d{}", hex(t.as_bytes())),
         OdsVal::Time(t) => format!("t{}", hex(t.as_bytes())),
     };
+    if let Some(f) = &c.formula {
+        s.push_str(&format!("={}", hex(f.as_bytes())));
+    }
     if c.display.is_some() {
         s.push('~');
     }
@@ -370,6 +373,10 @@ fn parse_cell(s: &str) -> OdsCell {
         Some(b) => (b, true),
         None => (body, false),
     };
+    let (body, formula) = match body.split_once('=') {
+        Some((b, f)) => (b, Some(String::from_utf8(unhex(f)).unwrap())),
+        None => (body, None),
+    };
     let txt = |h: &str| String::from_utf8(unhex(h)).unwrap();
     let bits = |h: &str| f64::from_bits(u64::from_str_radix(h, 16).unwrap());
     let (k, p) = body.split_at(1);
@@ -387,6 +394,7 @@ fn parse_cell(s: &str) -> OdsCell {
         x => panic!("bad cell kind {x}"),
     };
     c.repeat = rep;
+    c.formula = formula;
     if disp {
         c.display = Some("shown".into());
     }
@@ -408,10 +416,12 @@ fn parse_sheet(s: &str) -> Vec<RowRun> {
         .collect()
 }
 
-type TGrid = BTreeMap<(u64, u64), OdsVal>;
+/// what a grid position stores: a value (possibly `Empty`) and a formula (possibly none); never both absent
+type GCell = (OdsVal, Option<String>);
+type TGrid = BTreeMap<(u64, u64), GCell>;
 
-fn palette(rng: &mut Rng) -> OdsVal {
-    match rng.below(16) {
+fn palette(rng: &mut Rng) -> GCell {
+    let v = match rng.below(16) {
         0 => OdsVal::Float(1.5),
         1 => OdsVal::Float(-2.0),
         2 => OdsVal::Percentage(0.5),
@@ -428,6 +438,12 @@ fn palette(rng: &mut Rng) -> OdsVal {
         13 => OdsVal::Float(f64::from_bits(rng.next() & 0x7fef_ffff_ffff_ffff | ((rng.next() & 1) << 63))),
         14 => OdsVal::Str(format!("s{}", rng.below(1000))),
         _ => OdsVal::Float(rng.below(100) as f64),
+    };
+    match rng.below(12) {
+        0 => (v, Some("of:=[.A1]+1".to_string())),
+        1 => (v, Some(format!("of:=SUM([.A1:.B{}])&\"<x>\"", rng.range(1, 9)))),
+        2 => (OdsVal::Empty, Some("of:=[.B2]".to_string())), // a formula without a cached value
+        _ => (v, None),
     }
 }
 
@@ -457,15 +473,15 @@ fn gen_grid(rng: &mut Rng) -> TGrid {
     let h = rng.range(1, 9);
     let w = rng.range(1, 8);
     let density = rng.range(1, 9);
-    let mut prev: Vec<Option<OdsVal>> = vec![None; w as usize];
+    let mut prev: Vec<Option<GCell>> = vec![None; w as usize];
     for i in 0..h {
         let mode = rng.below(10);
-        let row: Vec<Option<OdsVal>> = if mode < 2 {
+        let row: Vec<Option<GCell>> = if mode < 2 {
             vec![None; w as usize] // blank row
         } else if mode < 5 {
             prev.clone() // copy of the previous row
         } else {
-            let mut row: Vec<Option<OdsVal>> = vec![];
+            let mut row: Vec<Option<GCell>> = vec![];
             for j in 0..w as usize {
                 let v = if rng.below(10) < density {
                     if j > 0 && rng.chance(1, 3) {
@@ -505,7 +521,7 @@ fn split(rng: &mut Rng, n: u64) -> u64 {
 /// one random run-length grouping of the grid
 fn encode(g: &TGrid, rng: &mut Rng) -> Vec<RowRun> {
     let mut rows: Vec<RowRun> = vec![];
-    let mut by_row: BTreeMap<u64, Vec<(u64, &OdsVal)>> = BTreeMap::new();
+    let mut by_row: BTreeMap<u64, Vec<(u64, &GCell)>> = BTreeMap::new();
     for ((r, c), v) in g {
         by_row.entry(*r).or_default().push((*c, v));
     }
@@ -566,15 +582,16 @@ fn encode(g: &TGrid, rng: &mut Rng) -> Vec<RowRun> {
                 n += 1;
             }
             let k = split(rng, n as u64);
-            let mut cell = OdsCell::new(v.clone());
+            let mut cell = OdsCell::new(v.0.clone());
+            cell.formula = v.1.clone();
             if k > 1 || rng.chance(1, 4) {
                 cell.repeat = Some(k as usize);
             }
-            if !matches!(v, OdsVal::Str(_)) && rng.chance(1, 3) {
+            if !matches!(v.0, OdsVal::Str(_)) && !v.0.is_empty() && rng.chance(1, 3) {
                 cell.display = Some("shown".into());
             }
             if rng.chance(1, 10) {
-                cell.covered = true; // a covered cell that still carries a value
+                cell.covered = true; // a covered cell that still carries content
             }
             cell.self_closing = rng.chance(1, 2);
             cells.push(cell);
@@ -610,12 +627,13 @@ fn encode(g: &TGrid, rng: &mut Rng) -> Vec<RowRun> {
     rows
 }
 
+/// values range and formulas range, each as impl / model / Lean spec / oracle dump
 struct FileOut {
-    imp: String,
-    model: String,
-    spec: String,
-    expect: String,
-    /// typed mismatch found by walking the real `Range<Data>` against the grid (independent of the id table)
+    imp: [String; 2],
+    model: [String; 2],
+    spec: [String; 2],
+    expect: [String; 2],
+    /// typed mismatch found by walking the real ranges against the grid (independent of the id tables)
     typed: Option<String>,
 }
 
@@ -626,16 +644,35 @@ fn data_key(d: &Data) -> String {
     }
 }
 
+/// bounding box + row-major ids of the non-zero entries
+fn oracle_dump(cells: &[((u64, u64), u64)]) -> String {
+    if cells.is_empty() {
+        return dump((0, 0), (0, 0), &[]);
+    }
+    let r0 = cells.iter().map(|x| x.0 .0).min().unwrap();
+    let r1 = cells.iter().map(|x| x.0 .0).max().unwrap();
+    let c0 = cells.iter().map(|x| x.0 .1).min().unwrap();
+    let c1 = cells.iter().map(|x| x.0 .1).max().unwrap();
+    let w = c1 - c0 + 1;
+    let mut out = vec![0u64; ((r1 - r0 + 1) * w) as usize];
+    for (p, v) in cells {
+        out[((p.0 - r0) * w + (p.1 - c0)) as usize] = *v;
+    }
+    dump((r0, c0), (r1, c1), &out)
+}
+
 fn run_file(rows: &[RowRun], drv: &mut Driver, stored: bool) -> FileOut {
     let sheet = OdsSheet::new("Sheet1", rows.to_vec());
     let grid = sheet.grid();
-    // id table: 0 = empty, ids by first appearance in the runs
+    // id tables: 0 = empty, ids by first appearance in the runs
     let mut ids: HashMap<String, u64> = HashMap::new();
     ids.insert(data_key(&Data::Empty), 0);
-    let mut id_of = |d: &Data| -> u64 {
-        let n = ids.len() as u64;
-        *ids.entry(data_key(d)).or_insert(n)
-    };
+    let mut fids: HashMap<String, u64> = HashMap::new();
+    fids.insert(String::new(), 0);
+    fn id_of(m: &mut HashMap<String, u64>, k: String) -> u64 {
+        let n = m.len() as u64;
+        *m.entry(k).or_insert(n)
+    }
     let runs_wire = if rows.is_empty() {
         "-".to_string()
     } else {
@@ -644,28 +681,29 @@ fn run_file(rows: &[RowRun], drv: &mut Driver, stored: bool) -> FileOut {
                 format!(
                     "{}:{}",
                     r.count(),
-                    r.cells.iter().map(|c| format!("{}*{}", id_of(&c.val.expected()), c.count())).collect::<Vec<_>>().join(";")
+                    r.cells
+                        .iter()
+                        .map(|c| {
+                            format!(
+                                "{},{}*{}",
+                                id_of(&mut ids, data_key(&c.val.expected())),
+                                id_of(&mut fids, c.formula.clone().unwrap_or_default()),
+                                c.count()
+                            )
+                        })
+                        .collect::<Vec<_>>()
+                        .join(";")
                 )
             })
             .collect::<Vec<_>>()
             .join("/")
     };
-    // oracle: bounding box of the non-empty cells + values
-    let ne: Vec<(&(u64, u64), &Data)> = grid.iter().filter(|(_, v)| v.0 != Data::Empty).map(|(k, v)| (k, &v.0)).collect();
-    let expect = if ne.is_empty() {
-        dump((0, 0), (0, 0), &[])
-    } else {
-        let r0 = ne.iter().map(|x| x.0 .0).min().unwrap();
-        let r1 = ne.iter().map(|x| x.0 .0).max().unwrap();
-        let c0 = ne.iter().map(|x| x.0 .1).min().unwrap();
-        let c1 = ne.iter().map(|x| x.0 .1).max().unwrap();
-        let w = c1 - c0 + 1;
-        let mut cells = vec![0u64; ((r1 - r0 + 1) * w) as usize];
-        for (p, v) in &ne {
-            cells[((p.0 - r0) * w + (p.1 - c0)) as usize] = id_of(v);
-        }
-        dump((r0, c0), (r1, c1), &cells)
-    };
+    // oracle: bounding box of the non-empty values / formulas
+    let ne_v: Vec<(&(u64, u64), &Data)> = grid.iter().filter(|(_, v)| v.0 != Data::Empty).map(|(k, v)| (k, &v.0)).collect();
+    let ne_f: Vec<(&(u64, u64), &String)> = grid.iter().filter(|(_, v)| !v.1.is_empty()).map(|(k, v)| (k, &v.1)).collect();
+    let ev: Vec<((u64, u64), u64)> = ne_v.iter().map(|(p, v)| (**p, id_of(&mut ids, data_key(v)))).collect();
+    let ef: Vec<((u64, u64), u64)> = ne_f.iter().map(|(p, f)| (**p, id_of(&mut fids, (*f).clone()))).collect();
+    let expect = [oracle_dump(&ev), oracle_dump(&ef)];
     // implementation
     let mut book = OdsBook::new(vec![sheet]);
     book.stored = stored;
@@ -673,43 +711,62 @@ fn run_file(rows: &[RowRun], drv: &mut Driver, stored: bool) -> FileOut {
     let mut typed = None;
     let imp = match guarded(|| {
         let mut ods: Ods<_> = Ods::new(Cursor::new(bytes)).map_err(|e| format!("err:{e:?}"))?;
-        ods.worksheet_range("Sheet1").map_err(|e| format!("err:{e:?}"))
+        let v = ods.worksheet_range("Sheet1").map_err(|e| format!("err:{e:?}"))?;
+        let f = ods.worksheet_formula("Sheet1").map_err(|e| format!("err:{e:?}"))?;
+        Ok::<_, String>((v, f))
     }) {
-        Err(p) => format!("panic:{p}"),
-        Ok(Err(e)) => e,
-        Ok(Ok(range)) => {
+        Err(p) => [format!("panic:{p}"), String::new()],
+        Ok(Err(e)) => [e, String::new()],
+        Ok(Ok((range, frange))) => {
             let inner: Vec<u64> = range
                 .rows()
                 .flatten()
                 .map(|d| if *d == Data::Empty { 0 } else { ids.get(&data_key(d)).copied().unwrap_or(999_999) })
                 .collect();
+            let finner: Vec<u64> =
+                frange.rows().flatten().map(|f| if f.is_empty() { 0 } else { fids.get(f).copied().unwrap_or(999_999) }).collect();
             let (s, e) = (range.start().unwrap_or((0, 0)), range.end().unwrap_or((0, 0)));
+            let (fs, fe) = (frange.start().unwrap_or((0, 0)), frange.end().unwrap_or((0, 0)));
             // typed walk through the public accessors
-            for (p, v) in &ne {
+            for (p, v) in &ne_v {
                 let got = range.get_value((p.0 as u32, p.1 as u32));
                 if got != Some(*v) {
                     typed = Some(format!("at ({},{}) expected {:?} got {:?}", p.0, p.1, v, got));
                     break;
                 }
             }
+            for (p, f) in &ne_f {
+                let got = frange.get_value((p.0 as u32, p.1 as u32));
+                if got != Some(*f) {
+                    typed = Some(format!("formula at ({},{}) expected {:?} got {:?}", p.0, p.1, f, got));
+                    break;
+                }
+            }
             if typed.is_none() && !range.is_empty() {
                 let (h, w) = range.get_size();
                 let used = range.used_cells().count();
-                if used != ne.len() || h * w != inner.len() {
-                    typed = Some(format!("size {h}x{w} with {} cells, {} used cells, expected {} used", inner.len(), used, ne.len()));
+                if used != ne_v.len() || h * w != inner.len() {
+                    typed = Some(format!("size {h}x{w} with {} cells, {} used cells, expected {} used", inner.len(), used, ne_v.len()));
                 }
             }
-            dump((s.0 as u64, s.1 as u64), (e.0 as u64, e.1 as u64), &inner)
+            [
+                dump((s.0 as u64, s.1 as u64), (e.0 as u64, e.1 as u64), &inner),
+                dump((fs.0 as u64, fs.1 as u64), (fe.0 as u64, fe.1 as u64), &finner),
+            ]
         }
     };
-    let reply = drv.ask(&format!("case {runs_wire}"));
-    let (model, spec) = reply.split_once('|').map(|(a, b)| (a.to_string(), b.to_string())).unwrap_or((reply.clone(), String::new()));
-    FileOut { imp, model, spec, expect, typed }
+    let reply = drv.ask(&format!("casevf {runs_wire}"));
+    let p: Vec<&str> = reply.split('|').collect();
+    let g = |i: usize| p.get(i).map(|s| s.to_string()).unwrap_or_else(|| reply.clone());
+    FileOut { imp, model: [g(0), g(2)], spec: [g(1), g(3)], expect, typed }
 }
 
 fn judge_file(o: &FileOut) -> Option<(String, String)> {
-    if o.imp != o.expect {
+    if o.imp[0] != o.expect[0] {
         return Some(("impl_vs_spec".into(), "file.range".into()));
+    }
+    if o.imp[1] != o.expect[1] {
+        return Some(("impl_vs_spec".into(), "file.formulas".into()));
     }
     if o.typed.is_some() {
         return Some(("impl_vs_spec".into(), "file.typed".into()));
@@ -718,6 +775,10 @@ fn judge_file(o: &FileOut) -> Option<(String, String)> {
         return Some(("model_vs_spec".into(), "file.range".into()));
     }
     None
+}
+
+fn show_out(o: &[String; 2]) -> String {
+    format!("values {} formulas {}", o[0], o[1])
 }
 
 /// shrink an encoded sheet: drop rows, drop cells, reduce repeats
@@ -766,6 +827,15 @@ fn shrink_file(rows: &[RowRun], kind: &str, drv: &mut Driver) -> Vec<RowRun> {
                         continue;
                     }
                 }
+                if cell.formula.is_some() && !cell.val.is_empty() {
+                    let mut c = cur.clone();
+                    c[i].cells[j].formula = None;
+                    if fails(&c, drv) {
+                        cur = c;
+                        improved = true;
+                        continue;
+                    }
+                }
                 if !cell.val.is_empty() && cell.val != OdsVal::Float(1.0) {
                     let mut c = cur.clone();
                     c[i].cells[j].val = OdsVal::Float(1.0);
@@ -808,6 +878,8 @@ fn unit_corpus() -> Vec<&'static str> {
         "1,2,3 0,2,5 1,1",
         "1,2,3 0,1,2,3 1,1",
         "1,2,3 0,1,2,3 1,0,1",
+        // repeat 0 on a blank row keeps consecutive_empty_rows alive across a data row
+        "3,3,3,2,2,3 0,2,2,3,3,6 3,0,2,2,5",
     ]
 }
 
@@ -821,157 +893,256 @@ fn file_corpus() -> Vec<&'static str> {
         ":_*2;s61/3:_*16384/2:c;_;b1*2;_*1000/1048000:_*1024",
         // every value kind, display text, covered cells
         ":f3ff8000000000000~;p3fe0000000000000;u400a000000000000~;s782079;a71;b1;b0~;d323032312d30332d3034;t50543148*2;c*3;s",
+        // formulas: with a cached value, without one (materialised as an empty value), repeated, after a blank run
+        ":_;f3ff0000000000000=6f663a3d5b2e41315d;_=6f663a3d5b2e42325d*2/:_*3;_=6f663a3d5b2e42325d/2:/:s61",
         // no rows at all; only blanks
         "-",
         "5:_*7/:c",
     ]
 }
 
+// ------------------------------------------------------------------------------------------------
+// work streams (deterministic in the seed, independent of the number of threads)
+// ------------------------------------------------------------------------------------------------
+
+enum Work {
+    Unit(Flat),
+    File(Vec<RowRun>, Option<TGrid>, bool),
+}
+
+struct Done {
+    text: String,
+    nontrivial: bool,
+    counters: Vec<(&'static str, u64)>,
+    fail: Option<(String, String, String, String, String, String)>,
+}
+
+fn file_counters(rows: &[RowRun], grid: &verif_harness::odsw::Grid, c: &mut Vec<(&'static str, u64)>) {
+    c.push(("file.row_elements", rows.len() as u64));
+    if rows.iter().any(|r| r.count() > 1 && r.cells.iter().any(|c| !c.is_blank())) {
+        c.push(("file.repeated_nonblank_row", 1));
+    }
+    if rows.iter().any(|r| r.cells.iter().any(|c| c.count() > 1 && !c.is_blank())) {
+        c.push(("file.repeated_nonblank_cell", 1));
+    }
+    if rows.iter().any(|r| r.count() >= 1000) {
+        c.push(("file.huge_row_repeat", 1));
+    }
+    if rows.iter().any(|r| r.cells.iter().any(|c| c.count() >= 1000)) {
+        c.push(("file.huge_col_repeat", 1));
+    }
+    if rows.iter().any(|r| r.cells.iter().any(|c| c.covered)) {
+        c.push(("file.covered_cell", 1));
+    }
+    if rows.iter().any(|r| r.cells.iter().any(|c| c.formula.is_some())) {
+        c.push(("file.formula", 1));
+    }
+    if rows.iter().any(|r| r.cells.iter().any(|c| c.formula.is_some() && c.val.is_empty())) {
+        c.push(("file.formula_without_value", 1));
+    }
+    let used_rows: Vec<u64> = grid.iter().filter(|(_, v)| v.0 != Data::Empty).map(|(k, _)| k.0).collect();
+    if let (Some(a), Some(b)) = (used_rows.first(), used_rows.last()) {
+        let interior = (b - a) < 5000 && (*a..*b).any(|r| !used_rows.contains(&r));
+        let cmin = grid.iter().filter(|(_, v)| v.0 != Data::Empty).map(|(k, _)| k.1).min().unwrap();
+        if interior && cmin > 0 {
+            c.push(("file.interior_blank_row_and_first_col_gt_A", 1));
+        }
+        if *a > 0 {
+            c.push(("file.first_row_gt_1", 1));
+        }
+        if cmin > 0 {
+            c.push(("file.first_col_gt_A", 1));
+        }
+    } else {
+        c.push(("file.empty_sheet", 1));
+    }
+}
+
+fn process(w: &Work, drv: &mut Driver, shrink_budget: &mut u32) -> Done {
+    match w {
+        Work::Unit(f) => {
+            let text = format!("U {}", f.wire());
+            let mut tmp = Report::new("C04", "");
+            let res = check_unit(f, drv, Some(&mut tmp));
+            let counters: Vec<(&'static str, u64)> = UNIT_KEYS.iter().filter_map(|k| tmp.counters.get(*k).map(|v| (*k, *v))).collect();
+            let mut fail = None;
+            if let Some((kind, sig, i, m, e)) = res {
+                fail = Some((kind.clone(), sig, text.clone(), i, m, e));
+                if *shrink_budget > 0 && kind != "impl_vs_model" {
+                    *shrink_budget -= 1;
+                    let small = shrink_unit(f, &kind, drv);
+                    if let Some((k2, s2, i2, m2, e2)) = check_unit(&small, drv, None) {
+                        fail = Some((k2, s2, format!("U {}", small.wire()), i2, m2, e2));
+                    }
+                }
+            }
+            Done { text, nontrivial: f.rows().is_some(), counters, fail }
+        }
+        Work::File(rows, src, stored) => {
+            let text = format!("F {}", sheet_text(rows));
+            let sheet = OdsSheet::new("Sheet1", rows.clone());
+            let grid = sheet.grid();
+            let nontrivial = grid.values().any(|v| v.0 != Data::Empty);
+            // encoder sanity: the expansion of the encoding is the grid it was made from
+            if let Some(g) = src {
+                let same = g.len() == grid.len()
+                    && g.iter().all(|(k, v)| {
+                        grid.get(k).map(|x| x.0 == v.0.expected() && x.1 == v.1.clone().unwrap_or_default()).unwrap_or(false)
+                    });
+                if !same {
+                    let fail = Some((
+                        "model_vs_spec".to_string(),
+                        "file.encoder".to_string(),
+                        text.clone(),
+                        String::new(),
+                        String::new(),
+                        "expansion of the encoding differs from the source grid".to_string(),
+                    ));
+                    return Done { text, nontrivial, counters: vec![], fail };
+                }
+            }
+            let mut counters = vec![];
+            file_counters(rows, &grid, &mut counters);
+            let o = run_file(rows, drv, *stored);
+            let mut fail = None;
+            if let Some((kind, sig)) = judge_file(&o) {
+                fail = Some((kind.clone(), sig, text.clone(), format!("{} {}", show_out(&o.imp), o.typed.clone().unwrap_or_default()), show_out(&o.model), show_out(&o.expect)));
+                if *shrink_budget > 0 {
+                    *shrink_budget -= 1;
+                    let small = shrink_file(rows, &kind, drv);
+                    let o2 = run_file(&small, drv, false);
+                    if let Some((k2, s2)) = judge_file(&o2) {
+                        fail = Some((k2, s2, format!("F {}", sheet_text(&small)), format!("{} {}", show_out(&o2.imp), o2.typed.clone().unwrap_or_default()), show_out(&o2.model), show_out(&o2.expect)));
+                    }
+                }
+            } else if o.imp != o.model {
+                fail = Some(("impl_vs_model".into(), "file.range".into(), text.clone(), show_out(&o.imp), show_out(&o.model), show_out(&o.expect)));
+            }
+            Done { text, nontrivial, counters, fail }
+        }
+    }
+}
+
+const UNIT_KEYS: [&str; 10] = [
+    "unit.wellformed",
+    "unit.illformed",
+    "unit.impl_panic",
+    "unit.all_empty",
+    "unit.interior_empty_row",
+    "unit.first_col_gt_A",
+    "unit.interior_empty_row_and_first_col_gt_A",
+    "unit.repeated_nonempty_row",
+    "unit.leading_empty_rows",
+    "unit.unused",
+];
+
+const STREAMS: u64 = 32;
+
 fn main() {
     let args = Args::parse();
-    let mut drv = Driver::spawn(&args.driver);
     let mut rep = Report::new(
         "C04",
         "unit: random flat (cells, cols, rows_repeats) — 0..6 rows of 0..5 cells (+ leading blank runs up to 300), values 0..3, \
          row repeats {0,1,2,3,5} and huge leading repeats up to 2^33, 8 % single structural faults — through the get_range hook vs \
          the Lean model vs (well-formed inputs with repeats >= 1 and u32 coordinates only) the expansion oracle. file: random sparse typed \
          grids (first used row in {0..1048000}, first used column in {0..16300}, <= 9x8 dense block + optional far cell, or 2-3 cells \
-         spanning a box <= 2^21 cells; float/percentage/currency/string/string-value/boolean/date/time cells) each written as 4 ods \
-         files under independent random run-length groupings (explicit copies vs repeated cells/rows in any split, blank runs as \
-         cells, covered cells or cell-less rows, trailing blank runs up to column 16384 / row 1048576), read with \
-         Ods::worksheet_range and compared with the bounding-box oracle of the grid, the Lean model getRange(collect runs) and the \
-         Lean spec bbox/expand. non-trivial = a well-formed unit input / a grid with at least one non-empty cell; distinct by input text",
+         spanning a box <= 2^21 cells; float/percentage/currency/string/string-value/boolean/date/time cells, 25 % of them with a \
+         formula, some formulas without a value) each written as 4 ods files under independent random run-length groupings (explicit \
+         copies vs repeated cells/rows in any split, blank runs as cells, covered cells or cell-less rows, trailing blank runs up to \
+         column 16384 / row 1048576), read with Ods::worksheet_range and worksheet_formula and compared with the bounding-box oracle \
+         of the grid, the Lean model getRange(collectV/collectF runs) and the Lean spec bbox/expand. non-trivial = a well-formed unit \
+         input / a grid with at least one non-empty value; distinct by input text",
     );
     if let Some(inp) = &args.replay {
+        let mut drv = Driver::spawn(&args.driver);
         let (kind, body) = inp.split_once(' ').expect("replay input");
-        if kind == "U" {
+        let w = if kind == "U" {
             let p: Vec<&str> = body.split(' ').collect();
-            let f = Flat { cells: parse_list(p[0]), cols: parse_list(p[1]), reps: parse_list(p[2]) };
-            rep.case(inp, true);
-            if let Some((k, sig, i, m, e)) = check_unit(&f, &mut drv, Some(&mut rep)) {
-                rep.fail(&k, &sig, inp, &i, &m, &e);
-            }
+            Work::Unit(Flat { cells: parse_list(p[0]), cols: parse_list(p[1]), reps: parse_list(p[2]) })
         } else {
-            let rows = parse_sheet(body);
-            rep.case(inp, true);
-            let o = run_file(&rows, &mut drv, false);
-            if let Some((k, sig)) = judge_file(&o) {
-                rep.fail(&k, &sig, inp, &format!("{} {}", o.imp, o.typed.clone().unwrap_or_default()), &o.model, &o.expect);
-            }
+            Work::File(parse_sheet(body), None, false)
+        };
+        let mut budget = 0;
+        let d = process(&w, &mut drv, &mut budget);
+        rep.case(&d.text, true);
+        if let Some((k, sig, input, i, m, e)) = d.fail {
+            rep.fail(&k, &sig, &input, &i, &m, &e);
         }
         rep.write(&args.out);
         return;
     }
 
-    let mut rng = Rng::new(args.seed);
-    let mut shrunk = 0;
-
-    // ---- unit level
-    let mut units: Vec<Flat> = unit_corpus()
-        .iter()
-        .map(|s| {
-            let p: Vec<&str> = s.split(' ').collect();
-            Flat { cells: parse_list(p[0]), cols: parse_list(p[1]), reps: parse_list(p[2]) }
-        })
-        .collect();
     let n_unit = args.count(50_000, 5_000_000);
-    let mut urng = rng.fork();
-    for _ in 0..n_unit {
-        units.push(gen_flat(&mut urng));
-    }
-    for f in &units {
-        let text = format!("U {}", f.wire());
-        rep.case(&text, f.rows().is_some());
-        if let Some((kind, sig, i, m, e)) = check_unit(f, &mut drv, Some(&mut rep)) {
-            if shrunk < 8 && kind != "impl_vs_model" {
-                shrunk += 1;
-                let small = shrink_unit(f, &kind, &mut drv);
-                if let Some((k2, s2, i2, m2, e2)) = check_unit(&small, &mut drv, None) {
-                    rep.fail(&k2, &s2, &format!("U {}", small.wire()), &i2, &m2, &e2);
-                    continue;
+    let n_grid = if args.n.is_some() { n_unit / 25 } else { args.count(2_000, 200_000) };
+    let threads = std::env::var("VERIF_THREADS").ok().and_then(|s| s.parse().ok()).unwrap_or(if args.thorough() { 12 } else { 4usize });
+    let mut root = Rng::new(args.seed);
+    // stream 0 = the corpus; streams 1..=STREAMS = generated work, each with its own generator state
+    let seeds: Vec<(Rng, Rng)> = (0..STREAMS).map(|_| (root.fork(), root.fork())).collect();
+    let next = std::sync::atomic::AtomicU64::new(0);
+    let (tx, rx) = std::sync::mpsc::sync_channel::<Done>(4096);
+    let mut requests = 0u64;
+    std::thread::scope(|sc| {
+        let mut handles = vec![];
+        for _ in 0..threads {
+            let tx = tx.clone();
+            let seeds = &seeds;
+            let next = &next;
+            let driver = args.driver.clone();
+            handles.push(sc.spawn(move || {
+                let mut drv = Driver::spawn(&driver);
+                loop {
+                    let s = next.fetch_add(1, std::sync::atomic::Ordering::SeqCst);
+                    if s > STREAMS {
+                        break;
+                    }
+                    let mut budget = 2u32;
+                    if s == 0 {
+                        for c in unit_corpus() {
+                            let p: Vec<&str> = c.split(' ').collect();
+                            let w = Work::Unit(Flat { cells: parse_list(p[0]), cols: parse_list(p[1]), reps: parse_list(p[2]) });
+                            tx.send(process(&w, &mut drv, &mut budget)).unwrap();
+                        }
+                        for c in file_corpus() {
+                            let w = Work::File(parse_sheet(c), None, false);
+                            tx.send(process(&w, &mut drv, &mut budget)).unwrap();
+                        }
+                        continue;
+                    }
+                    let (mut urng, mut frng) = seeds[(s - 1) as usize].clone();
+                    let share = |n: u64| n / STREAMS + if s - 1 < n % STREAMS { 1 } else { 0 };
+                    for _ in 0..share(n_unit) {
+                        let w = Work::Unit(gen_flat(&mut urng));
+                        tx.send(process(&w, &mut drv, &mut budget)).unwrap();
+                    }
+                    for _ in 0..share(n_grid) {
+                        let g = gen_grid(&mut frng);
+                        for _ in 0..4 {
+                            let rows = encode(&g, &mut frng);
+                            let stored = frng.chance(1, 4);
+                            let w = Work::File(rows, Some(g.clone()), stored);
+                            tx.send(process(&w, &mut drv, &mut budget)).unwrap();
+                        }
+                    }
                 }
+                drv.requests
+            }));
+        }
+        drop(tx);
+        for d in rx {
+            rep.case(&d.text, d.nontrivial);
+            for (k, v) in d.counters {
+                rep.add(k, v);
             }
-            rep.fail(&kind, &sig, &text, &i, &m, &e);
-        }
-    }
-
-    // ---- file level
-    let n_grid = if args.n.is_some() { args.count(0, 0) / 25 } else { args.count(2_000, 200_000) };
-    let mut frng = rng.fork();
-    let mut files: Vec<(Vec<RowRun>, Option<TGrid>, bool)> = file_corpus().iter().map(|s| (parse_sheet(s), None, false)).collect();
-    for _ in 0..n_grid {
-        let g = gen_grid(&mut frng);
-        for _ in 0..4 {
-            let rows = encode(&g, &mut frng);
-            let stored = frng.chance(1, 4);
-            files.push((rows, Some(g.clone()), stored));
-        }
-    }
-    for (rows, src, stored) in &files {
-        let text = format!("F {}", sheet_text(rows));
-        let sheet = OdsSheet::new("Sheet1", rows.clone());
-        let grid = sheet.grid();
-        rep.case(&text, grid.values().any(|v| v.0 != Data::Empty));
-        // encoder sanity: the expansion of the encoding is the grid it was made from
-        if let Some(g) = src {
-            let same = g.len() == grid.len() && g.iter().all(|(k, v)| grid.get(k).map(|x| x.0 == v.expected()).unwrap_or(false));
-            if !same {
-                rep.fail("model_vs_spec", "file.encoder", &text, "", "", "expansion of the encoding differs from the source grid");
-                continue;
-            }
-        }
-        // distribution
-        rep.add("file.row_elements", rows.len() as u64);
-        if rows.iter().any(|r| r.count() > 1 && r.cells.iter().any(|c| !c.is_blank())) {
-            rep.count("file.repeated_nonblank_row");
-        }
-        if rows.iter().any(|r| r.cells.iter().any(|c| c.count() > 1 && !c.is_blank())) {
-            rep.count("file.repeated_nonblank_cell");
-        }
-        if rows.iter().any(|r| r.count() >= 1000) {
-            rep.count("file.huge_row_repeat");
-        }
-        if rows.iter().any(|r| r.cells.iter().any(|c| c.count() >= 1000)) {
-            rep.count("file.huge_col_repeat");
-        }
-        if rows.iter().any(|r| r.cells.iter().any(|c| c.covered)) {
-            rep.count("file.covered_cell");
-        }
-        {
-            let used_rows: Vec<u64> = grid.keys().map(|k| k.0).collect();
-            if let (Some(a), Some(b)) = (used_rows.first(), used_rows.last()) {
-                let interior = (*a..*b).any(|r| !used_rows.contains(&r)) && (b - a) < 5000;
-                let cmin = grid.keys().map(|k| k.1).min().unwrap();
-                if interior && cmin > 0 {
-                    rep.count("file.interior_blank_row_and_first_col_gt_A");
-                }
-                if *a > 0 {
-                    rep.count("file.first_row_gt_1");
-                }
-                if cmin > 0 {
-                    rep.count("file.first_col_gt_A");
-                }
-            } else {
-                rep.count("file.empty_sheet");
+            if let Some((k, sig, input, i, m, e)) = d.fail {
+                rep.fail(&k, &sig, &input, &i, &m, &e);
             }
         }
-        let o = run_file(rows, &mut drv, *stored);
-        if let Some((kind, sig)) = judge_file(&o) {
-            if shrunk < 16 {
-                shrunk += 1;
-                let small = shrink_file(rows, &kind, &mut drv);
-                let o2 = run_file(&small, &mut drv, false);
-                if let Some((k2, s2)) = judge_file(&o2) {
-                    rep.fail(&k2, &s2, &format!("F {}", sheet_text(&small)), &format!("{} {}", o2.imp, o2.typed.clone().unwrap_or_default()), &o2.model, &o2.expect);
-                    continue;
-                }
-            }
-            rep.fail(&kind, &sig, &text, &format!("{} {}", o.imp, o.typed.clone().unwrap_or_default()), &o.model, &o.expect);
-        } else if o.imp != o.model {
-            rep.fail("impl_vs_model", "file.range", &text, &o.imp, &o.model, &o.expect);
+        for h in handles {
+            requests += h.join().unwrap();
         }
-    }
-    rep.add("driver_requests", drv.requests);
+    });
+    rep.add("driver_requests", requests);
+    rep.add("threads", threads as u64);
     rep.notes.push("C04: quick-xml (XML tokenisation), zip and f64::from_str are exercised, not modelled; cell typing (get_datatype) is validated by the file-level oracle only, the Lean model covers read_row's run logic and get_range".into());
     rep.write(&args.out);
 }
